@@ -218,6 +218,42 @@ void mon_no_loss(const Run& run, const Ix& ix, Verdicts& v, vu::Result& res) {
                   op_str(o) + " had not completed " + std::to_string((run.sc->end - o.t_init) / SEC) + " virtual seconds after initiation although the network was fault-free at the end (" + where + ")");
         } else res.count("requests_completed");
     }
+    // "A message whose acknowledgement is outstanding is retransmitted on the next connection": judged at the moment the
+    // client puts a NEW QoS>0 publish on a connection. Every older QoS>0 publish of the same run that was transmitted on an
+    // earlier connection and is still neither completed nor cancelled must have been retransmitted (PUBLISH or, once its
+    // PUBREC was consumed, PUBREL) on this connection by then: new and retransmitted packets go through the same queue, the
+    // same quota and the same sort, so nothing the client may legitimately do puts the newer one first.
+    std::vector<int> first_conn(h.ops.size(), -1);
+    for (auto& o : h.ops) if (is_pub12(o) && !ix.op_pubs[o.id].empty()) first_conn[o.id] = h.cpkts[ix.op_pubs[o.id][0]].conn;
+    for (auto& c : h.conns) {
+        bool hostile_on_conn = false;
+        for (auto& b : h.bpkts) if (b.conn == c.id && (b.kind == BKind::hostile || !b.wellformed)) hostile_on_conn = true;
+        if (hostile_on_conn) continue;
+        std::set<int> seen_here;        // ops with a PUBLISH / PUBREL on this connection so far
+        for (auto& k : h.cpkts) {
+            if (k.conn != c.id || k.dec.status != ref::Status::ok) continue;
+            int op = ix.cpkt_op[k.id];
+            if (op < 0) continue;
+            if (k.dec.pkt.type == ref::PUBREL) { seen_here.insert(op); continue; }
+            if (k.dec.pkt.type != ref::PUBLISH || k.dec.pkt.qos == 0) continue;
+            bool first_tx = ix.op_pubs[op][0] == k.id;
+            if (first_tx && c.id > 0) {
+                auto& n = h.ops[op];
+                for (auto& o : h.ops) {
+                    if (!is_pub12(o) || o.id == op || o.seq_init >= n.seq_init || o.incarnation != n.incarnation) continue;
+                    if (o.signalled || o.immediate_expected || o.after_terminal) continue;
+                    if (first_conn[o.id] < 0 || first_conn[o.id] >= c.id) continue;          // never transmitted before this connection
+                    if (o.completions > 0 && o.seq_done < k.seq) continue;                    // no longer outstanding
+                    res.count("outstanding_publishes_judged_at_new_publish");
+                    if (seen_here.count(o.id)) continue;
+                    v.add("C02", "C02:outstanding-not-retransmitted-on-next-connection",
+                          "connection " + std::to_string(c.id) + ": " + op_str(n) + " was transmitted for the first time while " + op_str(o) +
+                          ", transmitted on connection " + std::to_string(first_conn[o.id]) + " and still unacknowledged, had not been retransmitted on this connection");
+                }
+            }
+            seen_here.insert(op);
+        }
+    }
 }
 
 // ------------------------------------------------------------------------------------------------ C03
